@@ -312,6 +312,12 @@ def run(ck, facts, tier):
     # "invalid quote sets are rejected and never yield rates" also when they arrive as a stored market: the loader goes through try_new (C20 S20.2)
     from rules import c20
     c20.loader_rule(ck, facts, only={"fx::rates::FXRates"})
+    # ... and a stored market's quotes come back exactly: the float text round trip of the JSON layer is exact (C16 S16.1)
+    from rules import c16
+    nd16, tb16 = list(ck.not_decided), list(ck.trusted)
+    with ck.restrict({"S16.1"}):
+        c16.run(ck, facts, tier)
+    ck.not_decided[:], ck.trusted[:] = nd16, tb16
     from rules import c10
     nd, tb = list(ck.not_decided), list(ck.trusted)
     c10.run(ck, facts, tier, only={"R10.3", "R10.4", "R10.5", "R10.6"})
